@@ -493,7 +493,11 @@ def gen_parser(out: List[str], skel: Dict[str, str]) -> None:
                 lnp_init = s.value
     if stored != "traditional_mode":
         raise Broken("translator(cli): Parser.__init__ does not store traditional_mode as given", str(stored))
-    if not (isinstance(lnp_init, ast.Constant) and isinstance(lnp_init.value, int)):
+    try:
+        lnp_value = ast.literal_eval(lnp_init) if lnp_init is not None else None
+    except Exception:
+        lnp_value = None
+    if not isinstance(lnp_value, int) or isinstance(lnp_value, bool):
         raise Broken("translator(cli): Parser.__init__: initial last_newline_pos is not an integer literal")
     writers = sorted({f.name for f in P.body if isinstance(f, ast.FunctionDef) for n in ast.walk(f)
                       if isinstance(n, (ast.Assign, ast.AnnAssign, ast.AugAssign))
@@ -569,7 +573,7 @@ def gen_parser(out: List[str], skel: Dict[str, str]) -> None:
         raise Broken("translator(cli): Parser.current_indent signature changed")
     out.append(_pure(ci, "current_indent", {"p.lexpos(i)": "lexpos", "self.last_newline_pos": "last_newline_pos"},
                      ["lexpos", "last_newline_pos"], "current_indent", drop_assign_to=["lexpos"]))
-    out.append(f"Definition last_newline_pos_init : Z := {lnp_init.value}.")
+    out.append(f"Definition last_newline_pos_init : Z := {lnp_value if lnp_value >= 0 else '(' + str(lnp_value) + ')'}.")
     for name in POSITION_ACTIONS:
         f = _method(P, name)
         if f is None:
